@@ -126,6 +126,7 @@ class Report:
             w = dict(v)
             w["property"] = self.property_id
             w["rule"] = f"{prefix}/{v['rule']}"
+            w.setdefault("origin", [v["property"], v["rule"]])
             self.violations.append(w)
         for n in other.notes:
             self.notes.append(n)
